@@ -11,6 +11,15 @@ def processLine (line : String) : String :=
   match Json.parse line with
   | .error e => s!"BADLINE {e}"
   | .ok j =>
+    -- C20 through the front end: a mutating MCP call writes exactly one audit record, whose result is the tool's own verdict;
+    -- a call the tool does not report as failed comes with a result
+    let audits := strs j "audit"
+    let toolErr := bool j "toolIsError"
+    if bool j "toolAnswered" && audits != [if toolErr then "error" else "success"] then
+      s!"PROP C20 audit-record-does-not-say-what-the-tool-answered case={nat j "case"} via={str j "via"} kind={str j "k"} toolIsError={toolErr} audit={audits} answer={(str j "raw").take 120}"
+    else if bool j "toolAnswered" && !toolErr && str (obj j "resp") "t" != "count" then
+      s!"PROP C20,C15 tool-reported-success-without-a-result case={nat j "case"} via={str j "via"} kind={str j "k"} audit={audits} dropAt={nat j "dropAt"} {str j "dropMode"}"
+    else
     if str j "k" == "frontpub3" then
       -- one MCP messages_publish call spanning three managed endpoints (three Admin calls behind it): accepted ⇒ every item
       -- is queued on its endpoint's route; failed ⇒ no item of the call is left deliverable (queued or leased) and nothing
